@@ -70,6 +70,7 @@ def make_case(cid, rng, schema, root, n_ops, disk):
                               "UPDATE Track SET bpmAnalyzed = 99.5, bpm = NULL WHERE id = (SELECT MIN(id) FROM Track WHERE path IS NOT NULL)",
                               "DELETE FROM MetaData WHERE type = 1 AND id = (SELECT MIN(id) FROM Track WHERE path IS NOT NULL)",
                               "DELETE FROM MetaDataInteger WHERE type = 5",
+                              "DELETE FROM PerformanceData WHERE id = (SELECT MAX(id) FROM Track WHERE path IS NOT NULL)",
                               "UPDATE Track SET length = NULL, year = NULL"])
             add({"op": "raw_exec", "sql": sql}, None)
     # lookups must also be asked for keys that do not exist
